@@ -341,11 +341,13 @@ func TestC14(t *testing.T) {
 			}
 			sig, desc := verify(db, totalAcked, ackOffs, saves, killed, inSub, inOff)
 			if sig == "" {
-				// idempotent open: open-close-open without writes, schema_version keeps one row
-				if n, err := schemaRows(db); err != nil || n != 1 {
-					sig, desc = "schema-version-rows", fmt.Sprintf("schema_version holds %d rows after reopening (err %v)", n, err)
-				} else if s2, d2 := verify(db, totalAcked, ackOffs, saves, killed, inSub, inOff); s2 != "" {
+				// idempotent open: another open-close without writes changes nothing - neither the
+				// log, nor the saved offsets, nor the number of rows in schema_version
+				n1, err1 := schemaRows(db)
+				if s2, d2 := verify(db, totalAcked, ackOffs, saves, killed, inSub, inOff); s2 != "" {
 					sig, desc = "reopen-not-idempotent:"+s2, d2
+				} else if n2, err2 := schemaRows(db); err1 != nil || err2 != nil || n1 < 1 || n2 != n1 {
+					sig, desc = "schema-version-rows", fmt.Sprintf("schema_version held %d rows after one reopening and %d after another (errors %v / %v)", n1, n2, err1, err2)
 				}
 			}
 			if sig != "" {
@@ -453,10 +455,9 @@ func TestC14Strace(t *testing.T) {
 			}
 			_ = last
 			sig, desc := verify(db, a.nApp, ackOffs, a.saves, killed, a.intentSub, a.intentOff)
-			if sig == "" {
-				if rows, err := schemaRows(db); err != nil || rows != 1 {
-					sig, desc = "schema-version-rows", fmt.Sprintf("schema_version holds %d rows after reopening (err %v)", rows, err)
-				}
+			rows1, rerr1 := schemaRows(db)
+			if sig == "" && (rerr1 != nil || rows1 < 1) {
+				sig, desc = "schema-version-rows", fmt.Sprintf("schema_version holds %d rows after reopening (err %v)", rows1, rerr1)
 			}
 			if sig == "" {
 				// a further append must get a larger offset, and a second reopen must not change anything
@@ -477,6 +478,11 @@ func TestC14Strace(t *testing.T) {
 							sig, desc = "append-offset-not-larger-after-recovery", fmt.Sprintf("append after recovery got offset %s, the log ends at %s", off, evs[len(evs)-1].Offset)
 						}
 					}
+				}
+			}
+			if sig == "" {
+				if rows2, rerr2 := schemaRows(db); rerr2 != nil || rows2 != rows1 {
+					sig, desc = "schema-version-rows", fmt.Sprintf("schema_version held %d rows after one reopening and %d after another (err %v)", rows1, rows2, rerr2)
 				}
 			}
 			if sig != "" {
